@@ -139,6 +139,8 @@ def run(run):
         "axioms: none",
         "model coq/Model/Expand.v tied to Wtp.expand; parser functions other than #if/#ifeq/#switch are not modelled: their "
         "totality is decided by running the real functions (oracle: returns a str, never raises, within the time bound)",
+        "the #expr ladder machine whose totality is proved (Model/ExprTotal.v) erases to Model/ExprParse.v, which C18's check "
+        "compares with expr_fn on trees and token soups over the ladder regenerated from the source",
         "wall-clock bound enforced by SIGALRM per case in the child interpreter",
     ]
     errs = regen.regen(["GenData"])
